@@ -722,6 +722,10 @@ func (x *Exec) applyTeardown(ev Event, now time.Time) (*Viol, bool) {
 		return nil, true
 	case "close-server":
 		x.Trace = append(x.Trace, ev.Class())
+		if w.Cfg.Dual && w.Cfg.AppClosedUDP && w.SrvSock != nil {
+			_ = w.SrvSock.Close()
+			x.settle()
+		}
 		_ = w.Srv.Close()
 		x.settle()
 		x.ServerClosed = true
